@@ -51,6 +51,7 @@ type TxSpec struct {
 	In     []Ref     `json:"in,omitempty"`
 	Outs   []OutSpec `json:"outs,omitempty"`
 	Claim  *Ref      `json:"claim,omitempty"` // the withdrawal submit a claim references
+	Refs   []Ref     `json:"refs,omitempty"`  // further references (step < 0: a hash nobody stored)
 	BadSig bool      `json:"bad_sig,omitempty"`
 	Batch  uint64    `json:"batch,omitempty"`
 	Reuse  *Ref      `json:"reuse,omitempty"` // include an earlier transaction again
@@ -119,6 +120,7 @@ type hist struct {
 	// generator bookkeeping
 	avail   []avail
 	submits []Ref
+	finals  []Ref // finalized transactions (reference targets)
 	stale   []Ref
 	seeds   []OutSpec
 	deps    []TxSpec
@@ -219,6 +221,15 @@ func (h *hist) build(sp TxSpec) *builtTx {
 			payload := []byte("claimed:" + sub.ver.PayloadHash().String())
 			sig := f.custodian.PrivateSpendKey.Sign(crypto.Blake3Hash(payload))
 			tx.Extra = append(sig[:], payload...)
+		}
+		for _, r := range sp.Refs {
+			if r.Step < 0 {
+				tx.References = append(tx.References, crypto.Blake3Hash([]byte(fmt.Sprintf("verif-c16-unknown-ref-%d", r.Tx))))
+			} else if src := h.lookup(r); src != nil {
+				tx.References = append(tx.References, src.ver.PayloadHash())
+			} else {
+				panic("bad reference")
+			}
 		}
 		st := &common.SignedTransaction{Transaction: *tx}
 		for i := range st.Inputs {
@@ -497,6 +508,7 @@ func (h *hist) afterWrite(step int, row []*builtTx) {
 		if b.spec.Kind == "withdraw" {
 			h.submits = append(h.submits, Ref{Step: step, Tx: ti})
 		}
+		h.finals = append(h.finals, Ref{Step: step, Tx: ti})
 	}
 	var keep []Ref
 	for _, r := range h.stale {
